@@ -1,0 +1,21 @@
+//go:build verif
+
+package dt
+
+// Accessors for the verification harness under /verif (build tag "verif").
+// Add-only: nothing here is compiled into normal builds, and no existing
+// line of the package is changed.
+
+// VerifListRoot returns the list's sentinel element without initializing the
+// list (nil for a zero-value list that has not been used yet).
+func VerifListRoot[T any](l *List[T]) *Element[T] { return l.root }
+
+// VerifElementNext returns the raw next pointer of an element (also for
+// detached elements, whose pointers are deliberately kept by uncheckedRemove).
+func VerifElementNext[T any](e *Element[T]) *Element[T] { return e.next }
+
+// VerifElementPrev returns the raw prev pointer of an element.
+func VerifElementPrev[T any](e *Element[T]) *Element[T] { return e.prev }
+
+// VerifElementList returns the list an element believes it belongs to.
+func VerifElementList[T any](e *Element[T]) *List[T] { return e.list }
